@@ -20,6 +20,7 @@ safe(X) :- catch(g(X), _, (put_char(r), X = caught)).
 deep(X) :- catch(thrower(X), a, put_char(i)).
 guard(G, P) :- catch(G, P, throw(P)).
 guard2(G, P, R) :- catch(G, P, R).
+same(A, A).
 `
 
 var c04Items = []string{
@@ -40,6 +41,9 @@ var c04Items = []string{
 	"catch(guard(throw(c2(1, _)), c2(_, 2)), C2, (put_char(r), Y = C2))", "guard(throw(c2(X, _)), c2(_, 2))",
 	"P = c2(_, 2), catch(throw(c2(1, _)), P, throw(P))", "P = b(W), catch(thrower(Y), P, (put_char(r), Y = P))",
 	"guard2(thrower(X), b(V), (put_char(r), Y = V))", "guard(thrower(X), a)",
+	// the catcher is an unbound variable that is aliased to another one, in either direction, when catch/3 is called
+	"C = Y, catch(throw(a), C, put_char(r))", "Y = C, catch(throw(a), C, put_char(r))", "same(C, Y), catch(thrower(X), C, put_char(r))",
+	"C = Y0, catch(atom_length(N, _), C, put_char(e)), Y0 = error(Y, _)", "C = Y, catch((g(Z), Z > 1, throw(b(Z))), C, put_char(r)), Y == b(2)",
 	// built-in errors and unknown procedures
 	"atom_length(N, _)", "X > foo", "undefined_proc(X)",
 	// catch that exits deterministically / with choice points / after a retry
@@ -104,7 +108,7 @@ func c04Work(w *h.W) {
 func init() {
 	h.Register(&h.Check{
 		ID: "C04",
-		Rule: "all catch/throw skeletons: predicate t/2 whose clause body is every sequence of <= L items over 48 item shapes (generators tracing entry/redo, cut, user balls sharing variables with the goal, built-in errors, unknown procedures, catch/3 that exits deterministically or with choice points, nested catches with matching / non-matching catchers, rethrow from Recovery, catch inside \\+ and findall, cut inside the protected goal) run in 9 contexts (uncaught, caught outside with matching/non-matching catcher, inside findall, after older choice points, throw after the catch exited, \\+) plus the body as a query, as a directive and as an initialization goal (the Go error must carry the ball). Non-trivial = the reference yields an answer or error.",
+		Rule: "all catch/throw skeletons: predicate t/2 whose clause body is every sequence of <= L items over 53 item shapes (generators tracing entry/redo, cut, user balls sharing variables with the goal, built-in errors, unknown procedures, catch/3 that exits deterministically or with choice points, nested catches with matching / non-matching catchers, rethrow from Recovery, catchers that are unbound variables aliased to another variable in either direction, catch inside \\+ and findall, cut inside the protected goal) run in 9 contexts (uncaught, caught outside with matching/non-matching catcher, inside findall, after older choice points, throw after the catch exited, \\+) plus the body as a query, as a directive and as an initialization goal (the Go error must carry the ball). Non-trivial = the reference yields an answer or error.",
 		Explanation: "state = one skeleton program in a fresh real interpreter; transition = one context query / directive; compared: answer sequence, output trace (which goals ran, which recoveries ran), and the final error term (formal part; the context argument is implementation defined)",
 		Assumptions: []string{"reference machine ref/solve: catch frames are choice points with a trailed 'active' flag (deactivated on exit of the goal, re-activated by backtracking into it), ball copied at throw time, bindings undone to the catch's trail mark (ISO 7.8.9; self-checked against the ISO examples)"},
 		Work:        c04Work,
